@@ -466,3 +466,10 @@ def tracked_mismatch(tracked, stored, params_after_each_iter, n_total, rtol=1e-7
 
     jax.tree_util.tree_map(cmp, tracked, stored, *params_after_each_iter, is_leaf=lambda x: x is None)
     return bad[0] if bad else None
+
+
+def diverges(losses):
+    """True when a reference loss history is non-finite or explodes (> 1e6 x its first value): such programs amplify the
+    last-bit differences between eager and jitted arithmetic beyond any fixed tolerance and are not compared."""
+    a = np.asarray(losses, dtype=np.float64)
+    return (not np.all(np.isfinite(a))) or bool(np.max(np.abs(a)) > 1e6 * (1.0 + abs(a[0])))
